@@ -4,6 +4,7 @@ import (
 	"encoding/json"
 	"fmt"
 	"math"
+	"runtime"
 	"sort"
 	"strings"
 
@@ -35,7 +36,9 @@ type c10Case struct {
 	B       bool        `json:"b,omitempty"`
 	Counts  []int       `json:"counts,omitempty"`
 	Seed    int64       `json:"seed,omitempty"`
-	Mode    string      `json:"mode"` // tree | leaf | seed
+	Mode    string      `json:"mode"`            // tree | leaf | seed | large
+	Shape   []int       `json:"shape,omitempty"` // large: rows, columns of the generated alignment (Seqs is empty)
+	Procs   int         `json:"gomaxprocs,omitempty"`
 	Choices []vrt.Point `json:"choices,omitempty"`
 }
 
@@ -55,6 +58,22 @@ func (r c10Res) key() string {
 // c10Apply runs the real operation on a fresh alignment.
 func c10Apply(cs c10Case) c10Res {
 	var res c10Res
+	if cs.Op == "samplebag" && c10Ragged(cs.Seqs) {
+		// a plain sequence set whose sequences have different lengths
+		sb, err := mkSeqBag(cs.Alpha, namedRows(cs.Seqs...))
+		if err != nil {
+			res.Err = "build:" + err.Error()
+			return res
+		}
+		out, err := sb.SampleSeqBag(cs.N)
+		if err != nil {
+			res.Err = err.Error()
+		} else {
+			res.Rows = readRows(out)
+		}
+		res.Input = readRows(sb)
+		return res
+	}
 	al, err := mkAlign(cs.Alpha, namedRows(cs.Seqs...))
 	if err != nil {
 		res.Err = "build:" + err.Error()
@@ -134,6 +153,15 @@ func c10Apply(cs c10Case) c10Res {
 		res.Input = readRows(al)
 	}
 	return res
+}
+
+func c10Ragged(seqs []string) bool {
+	for _, x := range seqs {
+		if len(x) != len(seqs[0]) {
+			return true
+		}
+	}
+	return false
 }
 
 func multiset(s string) string {
@@ -695,6 +723,9 @@ func c10Run(c *mc.Ctx, cs c10Case) {
 	case "seed":
 		c10Seed(c, cs)
 		return
+	case "large":
+		c10LargeProbe(c, cs)
+		return
 	}
 	ex := &mc.Explorer{
 		Ctx:  c,
@@ -821,6 +852,127 @@ func c10Seed(c *mc.Ctx, cs c10Case) {
 	}
 	c.Nontrivial(fmt.Sprintf("seed|%v", cs))
 	c.Outcome(cs.Op + ":seed-replay-ok")
+}
+
+// c10LargeRows: n x L rows over ACGT whose columns are pairwise distinct (rows 0..5 spell the column
+// number in base 4) and whose rows are pairwise distinct.
+func c10LargeRows(n, L int) []string {
+	out := make([]string, n)
+	for i := range out {
+		b := make([]byte, L)
+		for j := range b {
+			if i < 6 {
+				b[j] = "ACGT"[(j>>(2*i))&3]
+			} else {
+				b[j] = "ACGT"[(i*131+j*31+(i*j)%7+(j>>(i%9)))&3]
+			}
+		}
+		out[i] = string(b)
+	}
+	return out
+}
+
+// c10LargeProbe: the sampling operations on an alignment of 64 x 1100 cells, the sample holding at least
+// 65536 cells, with GOMAXPROCS 2 or 4, under the controlled scheduler (the operations are documented as
+// sequential; code that shares the work between goroutines above a size threshold is explored with one
+// preemption, every interleaving must be free of data races and give the same sample) with the seeded
+// generator; the sample itself is judged: original columns taken for all rows / original rows.
+func c10LargeProbe(c *mc.Ctx, cs c10Case) {
+	n, L := cs.Shape[0], cs.Shape[1]
+	seqs := c10LargeRows(n, L)
+	in := namedRows(seqs...)
+	colIdx := map[string]int{}
+	for j := 0; j < L; j++ {
+		colIdx[column(in, j)] = j
+	}
+	if len(colIdx) != L {
+		c.Fatal("large alignment: columns are not pairwise distinct")
+		return
+	}
+	run := cs
+	run.Seqs = seqs
+	if cs.Procs > 0 {
+		defer runtime.GOMAXPROCS(runtime.GOMAXPROCS(cs.Procs))
+	}
+	judge := func(first any) string {
+		res := first.(c10Res)
+		if res.Err != "" {
+			return "unexpected error: " + res.Err
+		}
+		if res.Input != nil && !sameRows(res.Input, in) {
+			return "the input alignment changed"
+		}
+		out := res.Rows
+		switch cs.Op {
+		case "randsub", "bootstrap":
+			want := cs.N
+			if cs.Op == "bootstrap" {
+				want = L
+			}
+			if len(out) != n {
+				return fmt.Sprintf("%d rows for %d", len(out), n)
+			}
+			for i := range out {
+				if out[i].Name != in[i].Name || len(out[i].Seq) != want {
+					return fmt.Sprintf("row %d is %s of length %d, want %s of length %d", i, out[i].Name, len(out[i].Seq), in[i].Name, want)
+				}
+			}
+			seen := map[int]bool{}
+			prev := -1
+			for j := 0; j < want; j++ {
+				k, ok := colIdx[column(out, j)]
+				if !ok {
+					return fmt.Sprintf("column %d of the sample is not a column of the alignment (rows of the sample hold columns of different origins)", j)
+				}
+				if cs.Op == "randsub" {
+					if seen[k] {
+						return fmt.Sprintf("column %d of the alignment drawn twice", k)
+					}
+					if cs.B && j > 0 && k != prev+1 {
+						return fmt.Sprintf("window not contiguous: column %d of the sample is column %d, the previous one %d", j, k, prev)
+					}
+				}
+				seen[k], prev = true, k
+			}
+		case "sample", "samplebag":
+			if len(out) != cs.N {
+				return fmt.Sprintf("%d rows sampled, want %d", len(out), cs.N)
+			}
+			by := map[string]string{}
+			for _, r := range in {
+				by[r.Name] = r.Seq
+			}
+			seen := map[string]bool{}
+			for _, r := range out {
+				if seen[r.Name] {
+					return "row " + r.Name + " drawn twice"
+				}
+				seen[r.Name] = true
+				if s, ok := by[r.Name]; !ok || s != r.Seq {
+					return "sampled row " + r.Name + " is not the original row of that name"
+				}
+			}
+		case "shuffleseqs":
+			if len(out) != n {
+				return fmt.Sprintf("%d rows for %d", len(out), n)
+			}
+			a, b := []string{}, []string{}
+			for i := range in {
+				a, b = append(a, in[i].Name+"="+in[i].Seq), append(b, out[i].Name+"="+out[i].Seq)
+			}
+			if strings.Join(sortedCopy(a), ";") != strings.Join(sortedCopy(b), ";") {
+				return "not a permutation of the rows"
+			}
+		}
+		return ""
+	}
+	what := fmt.Sprintf("%s(n=%d, consecutive=%v) on a %dx%d alignment, GOMAXPROCS %d", cs.Op, cs.N, cs.B, n, L, cs.Procs)
+	mc.SchedProbeJudged(c, "C10/"+cs.Op+"/large", what, 1, cs, func() any {
+		rand.Seed(7)
+		return c10Apply(run)
+	}, func(a, b any) bool { return a.(c10Res).key() == b.(c10Res).key() }, judge)
+	c.Outcome(cs.Op + ":large-sample-ok")
+	c.Nontrivial(fmt.Sprintf("large|%v", cs))
 }
 
 // position-coded alignments: all cells distinct, so that the origin of every residue is identifiable
@@ -957,6 +1109,32 @@ func c10Cases(tier string) []c10Case {
 	}
 	add(c10Case{Op: "mutate", Seqs: []string{"L-"}, Alpha: align.AMINOACIDS, F1: 0.5})
 	add(c10Case{Op: "mutate", Seqs: []string{"L.", "*E"}, Alpha: align.AMINOACIDS, F1: 1})
+	// SampleSeqBag on plain sequence sets whose sequences have different lengths (longest first, shortest first)
+	for n := 2; n <= 4; n++ {
+		if n == 4 && !thorough {
+			continue
+		}
+		coded := c10Coded(n, n+1, nt)
+		dec, inc := make([]string, n), make([]string, n)
+		for i := range coded {
+			dec[i] = coded[i][:n+1-i]
+			inc[i] = coded[i][:i+1]
+		}
+		for k := 0; k <= n+1; k++ {
+			add(c10Case{Op: "samplebag", Seqs: dec, Alpha: nt, N: k})
+			add(c10Case{Op: "samplebag", Seqs: inc, Alpha: nt, N: k})
+		}
+	}
+	// large samples (at least 65536 cells) with 2 and 4 processors, under the controlled scheduler
+	for _, procs := range []int{2, 4} {
+		for _, c := range []c10Case{
+			{Op: "randsub", N: 1024, B: true}, {Op: "randsub", N: 1024}, {Op: "randsub", N: 1100, B: true},
+			{Op: "bootstrap", F1: 1}, {Op: "sample", N: 60}, {Op: "samplebag", N: 60}, {Op: "shuffleseqs"},
+		} {
+			c.Alpha, c.Mode, c.Shape, c.Procs = nt, "large", []int{64, 1100}, procs
+			cs = append(cs, c)
+		}
+	}
 	// seed replay in pass-through mode
 	for _, seed := range []int64{0, 1, 42} {
 		seqs := c10Coded(3, 3, nt)
@@ -986,7 +1164,7 @@ func init() {
 		ID:    "C10",
 		Level: "model_checking",
 		Rule: "for each randomised operation (ShuffleSequences, ShuffleSites, Swap, SimulateRogue, BuildBootstrap (also block-wise followed by Concat, as build seqboot --partition does), Sample, SampleSeqBag, RandSubAlign, Recombine, AddGaps, Mutate, Rarefy) on position-coded alignments of every shape n<=3 x L<=3 (4x4 for the support-checked operations in thorough; Swap of two pairs of rows on 4x3, 4x4, 5x3) and on all alignments n<=2,L<=2 over {A,C,-} for the content-sensitive ones, with all listed parameter values: EVERY sequence of RNG answers (rand.Intn: all n values; rand.Perm: all n! orders; rand.Float64: representatives on both sides of and at every threshold the code compares with) is executed; states/transitions are nodes/edges of the RNG choice trees; " +
-			"per leaf the operation's invariant, per tree reached-outcome set == admissible set where the statement pins the support down (row shuffle, bootstrap, sampling, site sampling, full site shuffle, substituted letters at rate 1); seed replay with the real stream for seeds 0,1,42 twice and under map-order choices, on 3x3 and (for operations reporting name lists or pairing rows) 4x4 alignments. distinct_nontrivial = distinct (case, answer sequence) leaves whose invariant was checked.",
+			"per leaf the operation's invariant, per tree reached-outcome set == admissible set where the statement pins the support down (row shuffle, bootstrap, sampling, site sampling, full site shuffle, substituted letters at rate 1); SampleSeqBag also on plain sequence sets of 2..3 (thorough 4) sequences of pairwise different lengths, longest first and shortest first; RandSubAlign (window and scattered, 1024 and all of 1100 columns), BuildBootstrap, Sample / SampleSeqBag (60 rows) and ShuffleSequences on a 64x1100 alignment with pairwise distinct columns (samples of at least 65536 cells) with GOMAXPROCS 2 and 4 under the controlled scheduler (one preemption, no data race, same sample under every interleaving) and the sample judged (original columns taken for all rows, distinct, contiguous for a window; original rows); seed replay with the real stream for seeds 0,1,42 twice and under map-order choices, on 3x3 and (for operations reporting name lists or pairing rows) 4x4 alignments. distinct_nontrivial = distinct (case, answer sequence) leaves whose invariant was checked.",
 		Assumptions: []string{
 			"rand.Intn(n) can return every value of [0,n) and rand.Perm every permutation (positive probability is decided as reachability over RNG answers)",
 			"rand.Float64 answers are representatives: below, at and above each comparison threshold of the operation",
